@@ -891,6 +891,18 @@ impl<'a> Model<'a> {
             }
             HandlerMode::Goto(h) => {
                 if self.in_handler > 0 {
+                    // The property does not say whether an error inside a running handler
+                    // ends the program. If the implementation did end it right here (no
+                    // statement was started afterwards), the diagnostic is C11's business:
+                    // it names this statement and the calls that are still active.
+                    if self.stmt_ev_idx == self.stmt_events.len()
+                        && matches!(self.outcome, Outcome::Error { .. })
+                    {
+                        self.probe("error_inside_handler_ended_the_program");
+                        let mut sites = self.callsites.clone();
+                        sites.reverse();
+                        return Ok(Recovery::Flow(Flow::Abort(None, s.id, sites)));
+                    }
                     return Err(Stop::Early("error inside an error handler".into()));
                 }
                 self.err = code as i64;
@@ -1412,6 +1424,12 @@ impl<'a> Model<'a> {
             }
             StmtKind::End => Ok(Ok(Flow::End)),
             StmtKind::Fail(k) => {
+                if self.fired.contains_key(&key) {
+                    // (a device that failed for good: which of the two errors wins is open)
+                    return Err(Stop::Early(
+                        "fault fired in a statement that fails by itself".into(),
+                    ));
+                }
                 if let FailKind::PrintThenDivZero = k {
                     // the first item is delivered, then the statement fails
                     let seg = Seg {
